@@ -1,10 +1,20 @@
 #!/usr/bin/env python3
 """Merge reviewed --propose outputs into known_findings.json (run by hand after review; never at check time).
-usage: merge_findings.py <propose-output-file>..."""
+usage: merge_findings.py [--replace Cxx[,Cyy]] <propose-output-file>...
+--replace drops the existing *open* entries of the given properties first (their
+complete quick+thorough proposals must then be given)."""
 import json, sys, os
 ROOT = os.path.dirname(os.path.dirname(os.path.abspath(__file__)))
 p = os.path.join(ROOT, "known_findings.json")
 d = json.load(open(p))
+args = sys.argv[1:]
+if args and args[0] == "--replace":
+    props = set(args[1].split(","))
+    before = len(d["findings"])
+    d["findings"] = [f for f in d["findings"] if not (f["property"] in props and f["status"] == "open")]
+    print("dropped", before - len(d["findings"]), "open entries of", sorted(props))
+    args = args[2:]
+sys.argv[1:] = args
 have = {(f["property"], f["key"]) for f in d["findings"]}
 n = 0
 for fn in sys.argv[1:]:
